@@ -7,6 +7,7 @@ import (
 	z "github.com/Oudwins/zog"
 	"github.com/Oudwins/zog/conf"
 	"github.com/Oudwins/zog/parsers/zjson"
+	"github.com/Oudwins/zog/zhttp"
 	v "github.com/Oudwins/zog/zzverif"
 )
 
@@ -89,7 +90,7 @@ func c10Leaves(front string) []c10leaf {
 }
 
 func C10_Jobs() []string {
-	return []string{"paths/map", "paths/validate", "paths/json", "missing/map", "missing/json", "issuepath", "sanitize", "first-and-unique/map", "first-and-unique/validate", "root-key"}
+	return []string{"paths/map", "paths/validate", "paths/json", "missing/map", "missing/json", "flat/json", "flat/zhttp-json", "issuepath", "sanitize", "first-and-unique/map", "first-and-unique/validate", "root-key"}
 }
 func C10_Covers() []string { return []string{"some-issues"} }
 
@@ -228,6 +229,48 @@ func C10_Run(job string) {
 			}
 		}
 		c10Check(errs, leaves, fails)
+	case "flat":
+		// every tag combination at the top level of a JSON document (one level only)
+		vals := map[string]int{}
+		fails := map[string]string{}
+		names := []string{"v", "w", "x", "y"}
+		missing := ""
+		if k := v.Choice("missing", 5); k < 4 {
+			missing = names[k]
+		}
+		doc := map[string]any{}
+		var leaves []c10leaf
+		for _, f := range []struct{ n, j, zt string }{{"v", "jv", "zv"}, {"w", "", "zw"}, {"x", "jx", ""}, {"y", "", ""}} {
+			key := c10Key("json", f.j, f.zt, f.n)
+			leaves = append(leaves, c10leaf{f.n, key})
+			switch {
+			case f.n == missing:
+				fails[f.n] = "required"
+				continue
+			case v.Choice("fail:"+f.n, 2) == 1:
+				vals[f.n], fails[f.n] = 5, "gt"
+			default:
+				vals[f.n] = 500
+			}
+			doc[key] = vals[f.n]
+		}
+		if len(doc) == 0 {
+			doc["unrelated"] = 1
+		}
+		var d c10L2
+		var errs z.ZogIssueMap
+		if b == "json" {
+			errs = c10L2Schema().Parse(zjson.Decode(strings.NewReader(toJSON(doc))), &d)
+		} else {
+			errs = c10L2Schema().Parse(zhttp.Request(c11Request("POST", "application/json", toJSON(doc), "")), &d)
+		}
+		c10Check(errs, leaves, fails)
+		for _, f := range names {
+			if _, bad := fails[f]; !bad {
+				got := map[string]int{"v": d.V, "w": d.W, "x": d.X, "y": d.Y}[f]
+				v.Assert(got == vals[f], "C10:value-not-read-from-documented-key")
+			}
+		}
 	case "issuepath":
 		x := v.Int("x")
 		var d struct {
